@@ -24,7 +24,7 @@ PROP_MODULES = {
     "C15": ["c15"],
     "C08": ["c08"],
     "C07": ["c07"],
-    "C04": ["c04"],
+    "C04": ["c04", "c02"],
     "C01": ["c01", "c03"],
     "C03": ["c03"],
     "C10": ["c01", "c03", "c10"],
